@@ -7,10 +7,10 @@ package main
 
 import (
 	"fmt"
-	"os"
 	"go/constant"
 	"go/token"
 	"go/types"
+	"os"
 	"sort"
 	"strings"
 
@@ -72,52 +72,52 @@ type Exec struct {
 	solver *Solver
 	cfg    *HarnessCfg
 
-	pc      []*Node
-	prefix  []uint64
-	di      int
-	trace   []uint64
-	alts    [][]uint64
-	altModels []map[string]uint64
+	pc          []*Node
+	prefix      []uint64
+	di          int
+	trace       []uint64
+	alts        [][]uint64
+	altModels   []map[string]uint64
 	prefixModel map[string]uint64
-	nondet  []NondetEntry
-	nvar    int
-	reached map[string]bool
-	obs     []string
+	nondet      []NondetEntry
+	nvar        int
+	reached     map[string]bool
+	obs         []string
 
-	globals  map[*ssa.Global]*Loc
-	initDone map[*ssa.Package]bool
-	funcs    map[*ssa.Function]bool
-	steps    int
-	depth    int
-	nowCount int
-	lastNow  *Node
+	globals     map[*ssa.Global]*Loc
+	initDone    map[*ssa.Package]bool
+	funcs       map[*ssa.Function]bool
+	steps       int
+	depth       int
+	nowCount    int
+	lastNow     *Node
 	lastNowInit bool
-	uniq     map[string]*Loc // unique.Make canonical objects
-	hidden   map[*Loc]Value  // hidden state for modelled library objects (atomic.Value, sync.Map, ...)
-	coros    []*coro
-	curCoro  *coro
-	threads  []*thread
-	curThread *thread
+	uniq        map[string]*Loc // unique.Make canonical objects
+	hidden      map[*Loc]Value  // hidden state for modelled library objects (atomic.Value, sync.Map, ...)
+	coros       []*coro
+	curCoro     *coro
+	threads     []*thread
+	curThread   *thread
 	preemptions int
 	freeChoices int
-	spawned  []string
+	spawned     []string
 
-	backing  map[*Loc]backRef
-	pin      []uint64
-	knowns   []string
-	obsNames []string
-	obsTerms []*Node
-	crcSeen  []crcRec
-	yieldBudget int
-	inYield  bool
-	bounds   map[*Node]ival
+	backing       map[*Loc]backRef
+	pin           []uint64
+	knowns        []string
+	obsNames      []string
+	obsTerms      []*Node
+	crcSeen       []crcRec
+	yieldBudget   int
+	inYield       bool
+	bounds        map[*Node]ival
 	nRangeDecided int
-	decimals map[*Node][]*Node
-	afterFuncs []afterFunc
-	timerTicks int
-	idCounter int
-	pending  []pendingAssert
-	inInit   bool
+	decimals      map[*Node][]*Node
+	afterFuncs    []afterFunc
+	timerTicks    int
+	idCounter     int
+	pending       []pendingAssert
+	inInit        bool
 
 	asserts   []AssertOutcome
 	nAssertOK int
